@@ -88,8 +88,9 @@ def _lock(path):
 
 def _prune():
     try:
+        # (the directory of the repo-independent helpers - vtool, argvdump - is not a cache entry: every running check uses it)
         ents = [os.path.join(CACHE, e) for e in os.listdir(CACHE)
-                if os.path.isdir(os.path.join(CACHE, e))]
+                if os.path.isdir(os.path.join(CACHE, e)) and e != "tools"]
     except OSError:
         return
     ents.sort(key=lambda p: os.path.getmtime(p))
